@@ -25,7 +25,7 @@ from typing import Any
 from ..engine.cfg import CFG
 from ..engine.normalize import inline_helpers, positional
 from ..engine.report import AnalysisError, Run
-from ..engine.resolver import FuncInfo, Program, body_walk, walk_no_nested
+from ..engine.resolver import FuncInfo, Program, body_walk, parent_map, walk_no_nested
 from ..engine.terms import Poly
 from ..engine.util import find_calls, method_call, node_writes, reaching_defs, u, writes_of
 from ._c18_util import NONE, Leaf, SymExec, cneg, div_atom, div_linear, fmt, interval
@@ -265,11 +265,38 @@ def check_form(run: Run, prog: Program) -> None:  # noqa: C901
     results = [r for r in (result_of(soc, x) for x in soc.post) if r is not None and r[1] != NONE]
     wrapped = [soc.sym.parts(r[1], "wrap") for r in results]
     vals = [w[2] for w in wrapped if w is not None and w[1] == "Percentage.from_percent"]
-    ok = bool(vals) and ratio in vals and all(
-        v == ratio or (v.const_value() is not None and 0 <= v.const_value() <= 100) for v in vals)
+
+    def call_fact(f: Any, kind: str, names: tuple[str, ...]) -> list[str] | None:
+        """Operand normal forms of a `kind` (truthy / falsy) fact on a call of one of `names`."""
+        st = soc.sym.struct.get(f[1]) if isinstance(f, tuple) and len(f) == 2 and f[0] == kind and isinstance(f[1], str) else None
+        if st is None or st[0] != "call" or not any(st[1] == n or st[1].endswith("." + n) for n in names):
+            return None
+        return [repr(a) for a in st[2]]
+
+    def zero_total(x: Leaf) -> bool:
+        return any(call_fact(f, "truthy", ("is_close_to_zero",)) == [repr(den_a)]
+                   or f in (("==", frozenset({repr(den_a), "0"})), ("<=", repr(den_a), "0")) for f in x.facts)
+
+    def snapped(x: Leaf, c: Fraction) -> bool:
+        want_ops = sorted([repr(ratio), repr(Poly.const(c))])
+        return any(sorted(call_fact(f, "truthy", ("isclose",)) or []) == want_ops for f in x.facts)
+
+    # a constant is the pool value only when the total weight is zero or when the mean is (is)close to it
+    ok = bool(vals) and ratio in vals
+    bad_vals: list[str] = []
+    for x in soc.post:
+        r = result_of(soc, x)
+        w = soc.sym.parts(r[1], "wrap") if r is not None and r[1] != NONE else None
+        if w is None or w[1] != "Percentage.from_percent" or w[2] == ratio:
+            continue
+        c = w[2].const_value()
+        if not (c is not None and 0 <= c <= 100 and (zero_total(x) or snapped(x, c))):
+            ok = False
+            bad_vals.append(f"{w[2]!r} when {', '.join(fmt(f) for f in x.facts)}")
     run.check(ok, "C18.FORM", soc_fn.qual, "pct = Σ w·s / Σ w (or a constant in [0, 100])",
-              f"the pool SoC is {sorted({repr(v) for v in vals})}: not the weighted mean (or an in-range constant)",
-              node=soc_fn.node, file=soc_fn.file)
+              f"the pool SoC is {sorted({repr(v) for v in vals})}: not the weighted mean (a constant in [0, 100] is "
+              "accepted only for a zero total weight or where the mean is close to that constant)"
+              + "".join(f"; {b}" for b in bad_vals[:3]), node=soc_fn.node, file=soc_fn.file)
 
     def nonzero(f: Any) -> bool:
         if f in (("!=", frozenset({repr(den_a), "0"})), ("<", "0", repr(den_a))):
@@ -408,6 +435,44 @@ def check_fetcher(run: Run, prog: Program) -> None:  # noqa: C901
         return None
 
     ok = True
+    kept = True
+    parents = parent_map(node)
+
+    def extracted(e: ast.AST, key: ast.AST) -> bool:
+        """`e` is self._extract_metric(…) of the metric id `key`."""
+        return isinstance(e, ast.Call) and method_call(e, "self", "_extract_metric") and any(
+            u(a) == u(key) for a in list(e.args) + [k.value for k in e.keywords])
+
+    def over_requested(it: ast.AST, at: int, depth: int = 3) -> bool:
+        """The iterable ranges over all requested metrics (self._metrics, possibly through one local)."""
+        if u(it) == "self._metrics":
+            return True
+        if isinstance(it, ast.Call) and isinstance(it.func, ast.Attribute) and it.func.attr in ("items", "keys") and not it.args:
+            it = it.func.value
+        if isinstance(it, ast.Name) and depth > 0:
+            ds = reaching_defs(cfg, at, it.id)
+            v = _assigned_value(cfg.nodes[ds[0]].ast) if len(ds) == 1 else None
+            if isinstance(v, (ast.DictComp, ast.ListComp, ast.SetComp)) and len(v.generators) == 1:
+                return over_requested(v.generators[0].iter, ds[0], depth - 1)
+        return False
+
+    def comp_keeps(dc: ast.DictComp, at: int) -> bool:
+        if len(dc.generators) != 1:
+            return False
+        g = dc.generators[0]
+        if not over_requested(g.iter, at):
+            return False
+        if extracted(dc.value, dc.key):
+            return True
+        # {k: v for k, v in raw.items() …} with raw = {k: extract(k) for k in self._metrics}
+        src = g.iter.func.value if isinstance(g.iter, ast.Call) and isinstance(g.iter.func, ast.Attribute) else None
+        if isinstance(src, ast.Name) and isinstance(g.target, ast.Tuple) and len(g.target.elts) == 2 \
+                and u(g.target.elts[0]) == u(dc.key) and u(g.target.elts[1]) == u(dc.value):
+            ds = reaching_defs(cfg, at, src.id)
+            v = _assigned_value(cfg.nodes[ds[0]].ast) if len(ds) == 1 else None
+            return isinstance(v, ast.DictComp) and extracted(v.value, v.key)
+        return False
+
     n_dicts = 0
     for c in built:
         m = positional(c, ctor_params).get("metrics")
@@ -419,6 +484,7 @@ def check_fetcher(run: Run, prog: Program) -> None:  # noqa: C901
         if isinstance(m, ast.DictComp):
             n_dicts += 1
             ok = ok and any(nan_test(i, m.value) == "true" for g in m.generators for i in g.ifs)
+            kept = kept and all(comp_keeps(m, a) for a in cfg.node_containing(c))
             continue
         if not isinstance(m, ast.Name):
             ok = False
@@ -431,6 +497,7 @@ def check_fetcher(run: Run, prog: Program) -> None:  # noqa: C901
             val = s.value if isinstance(s, (ast.Assign, ast.AnnAssign)) else None
             if isinstance(val, ast.DictComp):
                 ok = ok and any(nan_test(i, val.value) == "true" for g in val.generators for i in g.ifs)
+                kept = kept and comp_keeps(val, d)
             elif not ((isinstance(val, ast.Dict) and not val.keys) or (
                     isinstance(val, ast.Call) and u(val.func) == "dict" and not val.args and not val.keywords)):
                 ok = False
@@ -440,6 +507,25 @@ def check_fetcher(run: Run, prog: Program) -> None:  # noqa: C901
             method_call(k, m.id, a) for a in ("update", "setdefault", "__setitem__") for k in find_calls(n.ast, lambda _c: True))]
         if other:
             ok = False
+        if not any(isinstance(_assigned_value(cfg.nodes[d].ast), ast.DictComp) for d in defs):
+            # filled by stores: one of them keeps, for every requested metric id, the extracted value
+            def keeps(st: Any) -> bool:
+                s = st.ast
+                if not (isinstance(s, ast.Assign) and len(s.targets) == 1 and isinstance(s.targets[0], ast.Subscript)):
+                    return False
+                key = s.targets[0].slice
+                loop = parents.get(s)
+                while loop is not None and not (isinstance(loop, ast.For) and u(loop.target) == u(key)):
+                    loop = parents.get(loop)
+                if loop is None or not over_requested(loop.iter, st.id) or cfg.path(cfg.entry, [st.id]) is None:
+                    return False
+                v = s.value
+                if isinstance(v, ast.Name):
+                    ds = reaching_defs(cfg, st.id, v.id)
+                    v = _assigned_value(cfg.nodes[ds[0]].ast) if len(ds) == 1 else None
+                return v is not None and extracted(v, key)
+
+            kept = kept and any(keeps(st) for st in stores)
         for st in stores:
             s = st.ast
             if not isinstance(s, ast.Assign) or len(s.targets) != 1:
@@ -464,6 +550,10 @@ def check_fetcher(run: Run, prog: Program) -> None:  # noqa: C901
                 ok = False
     run.check(ok and n_dicts >= 1, "C18.EXCL", ff.qual, "metrics[mid] = value only if not isnan(value)",
               "NaN metric values are stored (they would count as present)", node=ff.node, file=ff.file)
+    run.check(kept and n_dicts >= 1, "C18.EXCL", ff.qual, "every requested metric that is not NaN is kept",
+              "the record handed to the calculators does not hold, for every requested metric id, the value "
+              "extracted from the component data: batteries with complete data would count as incomplete "
+              "(and the pool result would be None although batteries qualify)", node=ff.node, file=ff.file)
 
 
 # ---------------------------------------------------------------------------------------------
@@ -522,6 +612,7 @@ def check_working_set(run: Run, prog: Program) -> None:  # noqa: C901
     init = prog.func(f"{METH}:SendOnUpdate.__init__")
     upd = prog.func(f"{METH}:SendOnUpdate.update_working_batteries")
     run.analysed(upd.qual)
+    run.analysed(init.qual)
     WS, CALC = "self._working_batteries", "self._metric_calculator"
     if len(init.params) < 3 or len(upd.params) < 2:
         raise AnalysisError(f"{init.qual}: signature changed")
@@ -581,11 +672,60 @@ def check_working_set(run: Run, prog: Program) -> None:  # noqa: C901
             ok = isinstance(loop.target, ast.Name) and pops(own, bv) and len(inner) == 1 and pops(inner[0].body, u(inner[0].target))
             run.check(ok, "C18.EXCL", upd.qual, "evict cached metrics of the stopped batteries and their inverters",
                       "cached metrics of batteries that stopped working are not evicted", node=upd.node, file=upd.file)
+        # … and it is replaced on every path, except where it is known to be equal to the new set
+        equal_edges = set()
+        for t in cfg.nodes:
+            e, neg = t.ast, False
+            if t.kind != "test" or e is None:
+                continue
+            while isinstance(e, ast.UnaryOp) and isinstance(e.op, ast.Not):
+                e, neg = e.operand, not neg
+            if isinstance(e, ast.Compare) and len(e.ops) == 1 and isinstance(e.ops[0], (ast.Eq, ast.NotEq)) \
+                    and {repr(st.term(t.id, e.left)), repr(st.term(t.id, e.comparators[0]))} == {repr("WORKING"), repr(want)}:
+                equal_edges.add((t.id, "true" if isinstance(e.ops[0], ast.Eq) != neg else "false"))
+        wit = cfg.path(cfg.entry, [cfg.exit], avoid=wr,
+                       edge_ok=lambda a, _b, lab: (a, lab) not in equal_edges and not lab.startswith("exc:"))
+        run.check(wit is None, "C18.EXCL", upd.qual, "the working set is replaced unless it equals the new set",
+                  "a path leaves update_working_batteries without storing the new working set although it may "
+                  "differ from the old one: batteries that stopped working keep being aggregated",
+                  node=upd.node, file=upd.file, path=cfg.describe_path(wit))
+        # … a replaced working set triggers a recomputation: the event the sending loop waits for is set
+        cls = prog.cls(f"{METH}:SendOnUpdate")
+        waited = {u(c.func.value) for m in cls.methods.values()
+                  if find_calls(m.node, lambda c: method_call(c, CALC, "calculate"))
+                  for c in find_calls(m.node, lambda c: method_call(c, None, "wait") and not c.args)
+                  if isinstance(c.func, ast.Attribute)}
+        if not waited:
+            raise AnalysisError(f"{upd.qual}: the event that triggers the recomputation was not found")
+        sets = [n.id for n in cfg.nodes if n.ast is not None and n.kind == "stmt" and any(
+            method_call(c, ev, "set") for ev in waited for c in find_calls(n.ast, lambda _c: True))]
+        # (a synchronous method: whether the event is set just before or after the store is unobservable)
+        wit = next((p_ for w in wr for p_ in [cfg.path(w, [cfg.exit], avoid=sets, include_src=False,
+                                                      edge_ok=lambda _a, _b, lab: not lab.startswith("exc:"))]
+                    if p_ is not None and (upd.is_async or cfg.path(cfg.entry, [w], avoid=sets) is not None)), None)
+        run.check(wit is None, "C18.EXCL", upd.qual, "a replaced working set triggers a recomputation",
+                  f"after the working set is replaced, a path returns without `{sorted(waited)[0]}.set()`: the pool value "
+                  "keeps including batteries that stopped working (and is not None when none is left) until some "
+                  "component happens to send new data", node=upd.node, file=upd.file, path=cfg.describe_path(wit))
+        # … and the state this method works on exists: every attribute it reads is initialised at construction
+        reads = {n.attr for n in body_walk(unode) if isinstance(n, ast.Attribute) and isinstance(n.ctx, ast.Load)
+                 and isinstance(n.value, ast.Name) and n.value.id == "self" and prog.resolve_method(cls, n.attr) is None}
+        inits = {w.attr for n in icfg.nodes if n.kind == "stmt" for w in node_writes(icfg, n.id)
+                 if isinstance(w, ast.Attribute) and isinstance(w.value, ast.Name) and w.value.id == "self"
+                 and icfg.path(icfg.entry, [n.id]) is not None}
+        missing = sorted(reads - inits - set(cls.class_assigns))
+        run.check(not missing, "C18.EXCL", upd.qual, "state read by update_working_batteries is initialised in __init__",
+                  f"update_working_batteries reads self.{', self.'.join(missing)} which __init__ never assigns: the update "
+                  "raises before / after the working set is replaced and stopped batteries are not evicted",
+                  node=init.node, file=init.file)
         run.check(ok_u, "C18.EXCL", upd.qual, "self._working_batteries = reported ∩ calculator batteries",
                   "the working set is replaced by something else than the filtered new set", node=upd.node, file=upd.file)
     calls = [c for m in prog.cls(f"{METH}:SendOnUpdate").methods.values()
              for c in find_calls(m.node, lambda c: method_call(c, CALC, "calculate"))]
     ok = len(calls) == 1
+    for m in prog.cls(f"{METH}:SendOnUpdate").methods.values():
+        if any(c in calls for c in find_calls(m.node, lambda _c: True)):
+            run.analysed(m.qual)
     if ok:
         a = positional(calls[0], prog.func(f"{MC}:SoCCalculator.calculate").params[1:])
         ok = len(calls[0].args) + len(calls[0].keywords) == 2 and {k: u(v) for k, v in a.items()} == {
@@ -610,6 +750,16 @@ CONTROLS = [
     ("union instead of intersection at construction", METH,
      "        self._working_batteries: set[int] = working_batteries.intersection(",
      "        self._working_batteries: set[int] = working_batteries.union(", "C18.EXCL"),
+    ("pool value forced to 100 unless close to 100", MC, "            if math.isclose(pct, 100.0):",
+     "            if not math.isclose(pct, 100.0):", "C18.FORM"),
+    ("working set replaced only when unchanged", METH, "        if new_set != self._working_batteries:",
+     "        if new_set == self._working_batteries:", "C18.EXCL"),
+    ("no recomputation after a working-set change", METH,
+     "            self._working_batteries = new_set\n            self._update_event.set()\n",
+     "            self._working_batteries = new_set\n", "C18.EXCL"),
+    ("inverter map not initialised", METH, "        self._bat_inv_map = _get_battery_inverter_mappings(",
+     "        bat_inv_map = _get_battery_inverter_mappings(", "C18.EXCL"),
+    ("metrics never stored", FETCH, "                metrics[mid] = value\n", "                pass\n", "C18.EXCL"),
 ]
 
 
@@ -702,6 +852,39 @@ def structural_controls(prog: Program) -> list[tuple[str, str, str, str, str]]: 
     ff = prog.func(f"{FETCH}:LatestMetricsFetcher.fetch_next")
     nan = [n.func for n in body_walk(ff.node) if isinstance(n, ast.Call) and u(n.func) in ("math.isnan", "isnan")]
     add("fetcher: NaN values are kept", FETCH, [(f, "math.isinf") for f in nan], "C18.EXCL")
+    stores = [n for n in body_walk(ff.node) if isinstance(n, ast.Assign) and len(n.targets) == 1
+              and isinstance(n.targets[0], ast.Subscript) and isinstance(n.targets[0].value, ast.Name)]
+    if len(stores) == 1:
+        add("fetcher: metrics never stored", FETCH, [(stores[0], "pass")], "C18.EXCL")
+    # the snapping test of the pool value, negated
+    snaps = [n for n in soc_nodes if isinstance(n, ast.If) and isinstance(n.test, ast.Call)
+             and u(n.test.func) in ("math.isclose", "isclose") and any(isinstance(a, ast.Constant) for a in n.test.args)]
+    if len(snaps) == 1:
+        add("SoCCalculator: snapping test negated", MC, [(snaps[0].test, f"not {seg(mc, snaps[0].test)}")], "C18.FORM")
+    # the working set is replaced exactly when it did not change
+    upd = prog.func(f"{METH}:SendOnUpdate.update_working_batteries")
+    eqs = [n for n in body_walk(upd.node) if isinstance(n, ast.Compare) and len(n.ops) == 1
+           and isinstance(n.ops[0], (ast.Eq, ast.NotEq))
+           and "self._working_batteries" in (u(n.left), u(n.comparators[0]))]
+    if len(eqs) == 1:
+        ms = prog.module(METH).source
+        flipped = "!=" if isinstance(eqs[0].ops[0], ast.Eq) else "=="
+        add("SendOnUpdate.update_working_batteries: change test reversed", METH,
+            [(eqs[0], f"{seg(ms, eqs[0].left)} {flipped} {seg(ms, eqs[0].comparators[0])}")], "C18.EXCL")
+    # the recomputation trigger is dropped / state of the eviction is not initialised
+    trig = [n for n in body_walk(upd.node) if isinstance(n, ast.Expr) and isinstance(n.value, ast.Call)
+            and isinstance(n.value.func, ast.Attribute) and n.value.func.attr == "set" and not n.value.args]
+    if len(trig) == 1:
+        add("SendOnUpdate.update_working_batteries: recomputation not triggered", METH, [(trig[0], "pass")], "C18.EXCL")
+    init_fn = prog.func(f"{METH}:SendOnUpdate.__init__")
+    used = {n.attr for n in body_walk(upd.node) if isinstance(n, ast.Attribute) and isinstance(n.value, ast.Name)
+            and n.value.id == "self" and isinstance(n.ctx, ast.Load)}
+    tg = [t for n in init_fn.node.body if isinstance(n, (ast.Assign, ast.AnnAssign))
+          for t in (n.targets if isinstance(n, ast.Assign) else [n.target])
+          if isinstance(t, ast.Attribute) and isinstance(t.value, ast.Name) and t.value.id == "self"
+          and t.attr in used and t.attr not in ("_working_batteries", "_metric_calculator")]
+    if tg:
+        add("SendOnUpdate.__init__: state of the update not initialised", METH, [(tg[0], "_unused")], "C18.EXCL")
     # working set: unfiltered at construction / on update
     for mname in ("__init__", "update_working_batteries"):
         m = prog.func(f"{METH}:SendOnUpdate.{mname}")
